@@ -330,7 +330,7 @@ def legal_history(rng, nblocks, ncalls, maxn=4):
         elif w in ("rn", "wn"):
             n = rng.choice([2, 2, 3, maxn, 0])
             idx = rng.choice([0, 1, min(nblocks - 1, max(0, nblocks - n)), rng.below(max(1, min(nblocks, nblocks - n + 1)))])   # in range: idx < nblocks, idx + n <= nblocks
-            calls.append("r:%d:%d" % (n, idx) if w == "rn" else "w:%d:%d:%d" % (idx, n, rng.below(1 << 20)))
+            calls.append("%s:%d:%d" % (rng.choice(["r", "r", "rd"]), n, idx) if w == "rn" else "w:%d:%d:%d" % (idx, n, rng.below(1 << 20)))
         else:
             calls.append(w)
     return calls
@@ -347,7 +347,8 @@ def legal_scenarios(rng, thorough, prefix="L"):
             r = rng.below(nb - 4)
             calls = ["gt", "nb", "ny", "es", "r:1:0", "r:1:1", "r:1:%d" % (nb - 1), "w:0:1:11", "r:1:0", "w:%d:1:12" % (nb - 1),
                      "r:2:%d" % (nb - 2), "w:1:3:13", "r:4:0", "r:1:%d" % r, "w:%d:2:14" % r, "r:3:%d" % r, "mu", "gt", "r:2:0",
-                     "w:%d:4:15" % (nb - 4), "mu", "r:4:%d" % (nb - 4), "r:0:0", "w:0:0:1"]
+                     "w:%d:4:15" % (nb - 4), "mu", "r:4:%d" % (nb - 4), "r:0:0", "w:0:0:1",
+                     "rd:1:2", "rd:3:1", "rd:2:%d" % (nb - 2)]
             scns.append(Scn("%s%d" % (prefix, n), crc, 50, calls, kind=kind, csd=csd, memseed=3 + n, tseed=100 + n, tag="script")); n += 1
     nrand = 2000 if thorough else 14
     for _ in range(nrand):
